@@ -168,12 +168,19 @@ def evaluate(cases, checker, tag):
     return results, {idx[k]: c for k, c in bad.items()}, errors
 
 
-def run_table_check(prop, tier, seed, replay, checker, layers, soft_codes, kinds, extra=None, trusted=(), modelled='', assumptions=()):
+def run_table_check(prop, tier, seed, replay, checker, layers, soft_codes, kinds, extra=None, trusted=(), modelled='', assumptions=(),
+                    prebuild=None, extra_targets=()):
     """layers: code -> text of a property-level failure (a concrete failing input).  soft_codes: codes that are
     model/proof-level (no failing input by themselves).  extra(tier, rng) -> dict(violations=[(payload)], coverage={}, errors=[])"""
     t0 = time.time(); rng = random.Random(seed)
     odfdo = common.use_repo()
-    proofs = common.build_proofs(prop)
+    gen_error = None
+    if prebuild:
+        try:
+            prebuild(odfdo)
+        except Exception as e:      # the translator met a shape it does not understand: correspondence failure, not a guess
+            gen_error = 'generated tables: %r' % (e,)
+    proofs = common.build_proofs(prop, extra_targets)
     known = {e['key']: e for e in common.known_findings(prop)}
     corpus = []
     for f in sorted((common.ROOT / 'corpus' / prop).glob('*.json')):
@@ -245,7 +252,9 @@ def run_table_check(prop, tier, seed, replay, checker, layers, soft_codes, kinds
             else:
                 violations.append((common.write_replay(prop, seed, 'vault-' + common.digest(key)[:8], payload), False))
         soft.update({('sweep', k): c for k, c in sbad.items() if c in (3, 8)})
-    ex = extra(tier, rng, odfdo, known) if extra else dict(violations=[], coverage={}, errors=[], known_seen=[])
+    ex = extra(tier, rng, odfdo, known) if (extra and not replay) else dict(violations=[], coverage={}, errors=[], known_seen=[])
+    if gen_error:
+        ex['errors'] = list(ex['errors']) + [gen_error]
     violations += ex['violations']; errors += ex['errors']; known_seen += ex.get('known_seen', [])
     # model-level / abstraction-level trouble: look for a concrete failing input with the direct Python reference
     soft_msgs = []
